@@ -219,11 +219,50 @@ pub fn large_universes() -> Vec<(&'static str, Vec<Req>)> {
         straddle.extend(query_universe(&[straddle_owner(b'p', k)], &[t::PTR], &[c::IN], &sdecos));
         straddle.extend(query_universe(&[straddle_owner(b'm', k)], &[t::MX], &[c::IN], &sdecos));
     }
-    vec![("wide", wide), ("straddle", straddle)]
+    let rev = query_universe(&rev_names(), &[t::A, t::NS, t::PTR, t::MX, t::SRV, t::ANY], &[c::IN], &[Deco::Plain, Deco::Edns { size: 1232, dnssec_ok: false }, Deco::Tsig { key: 1 }]);
+    vec![("wide", wide), ("straddle", straddle), ("rev", rev)]
+}
+
+/// `2.0.192.in-addr.arpa.`: a zone whose apex has more labels than the names
+/// its records point at - delegations (and MX / SRV / CNAME records) to name
+/// servers outside the zone with fewer labels than the apex, to ancestors of
+/// the apex and to the root, next to ordinary in-bailiwick ones.
+pub fn rev_zone_recs() -> Vec<Rec> {
+    let apex = wname("2.0.192.in-addr.arpa.");
+    let n = |s: &str| wname(&format!("{s}.2.0.192.in-addr.arpa."));
+    vec![
+        rec(&apex, t::SOA, 3600, soa_rdata("ns.example.", "admin.example.", 1, 1, 2, 3, 60)),
+        rec(&apex, t::NS, 3600, wname("ns.example.")),
+        rec(&apex, t::NS, 3600, wname("arpa.")),
+        rec(&n("0-127"), t::NS, 60, wname("ns1.customer.example.")),
+        rec(&n("0-127"), t::NS, 60, wname("x.")),
+        rec(&n("128-255"), t::NS, 60, wname("in-addr.arpa.")),
+        rec(&n("128-255"), t::NS, 60, wname(".")),
+        rec(&n("128-255"), t::NS, 60, n("ns.128-255")),
+        rec(&n("ns.128-255"), t::A, 60, vec![192, 0, 2, 129]),
+        rec(&n("mixed"), t::NS, 60, wname("b.")),
+        rec(&n("mixed"), t::NS, 60, n("ns.mixed")),
+        rec(&n("mixed"), t::NS, 60, wname("arpa.")),
+        rec(&n("ns.mixed"), t::A, 60, vec![192, 0, 2, 200]),
+        rec(&n("1"), t::PTR, 60, wname("host.example.")),
+        rec(&n("2"), t::CNAME, 60, n("2.0-127")),
+        rec(&n("m"), t::MX, 60, mx_rdata(1, "mx.")),
+        rec(&n("m"), t::MX, 60, mx_rdata(2, ".")),
+        rec(&n("s"), t::SRV, 60, srv_rdata(1, 2, 3, "arpa.")),
+    ]
+}
+
+pub fn rev_names() -> Vec<Vec<u8>> {
+    let mut v: Vec<Vec<u8>> = ["2.0.192.in-addr.arpa.", "0.192.in-addr.arpa.", "arpa.", "x."].iter().map(|s| wname(s)).collect();
+    for s in ["0-127", "5.0-127", "a.b.0-127", "128-255", "200.128-255", "ns.128-255", "mixed", "9.mixed", "ns.mixed", "1", "2", "m", "s", "nx"] {
+        v.push(wname(&format!("{s}.2.0.192.in-addr.arpa.")));
+    }
+    v
 }
 
 pub fn large_catalogs() -> Vec<(String, CatRef)> {
     vec![
+        ("rev".to_string(), catalog_from(vec![("2.0.192.in-addr.arpa.", rev_zone_recs())])),
         ("wide".to_string(), catalog_from(vec![("wide.", wide_zone_recs())])),
         ("straddle".to_string(), catalog_from(vec![("straddle.", straddle_zone_recs())])),
     ]
